@@ -47,7 +47,12 @@ struct SKLB {
     #[br(if(version == 0x3133_3030u32 || version == 0x3133_3031u32))]
     sklb_v2: Option<SklbV2>,
 
-    #[br(seek_before(SeekFrom::Start(if (version == 0x3132_3030u32) { sklb_v1.as_ref().unwrap().havok_offset as u64 } else { sklb_v2.as_ref().unwrap().havok_offset as u64 })))]
+    // fails the parse for a version that has neither header
+    #[br(temp)]
+    #[br(try_calc = sklb_v1.as_ref().map(|x| x.havok_offset as u32).or(sklb_v2.as_ref().map(|x| x.havok_offset)).ok_or("Unknown SKLB version"))]
+    havok_offset: u32,
+
+    #[br(seek_before(SeekFrom::Start(havok_offset as u64)))]
     #[br(parse_with = until_eof)]
     raw_data: Vec<u8>,
 }
